@@ -71,45 +71,40 @@ def cal_voro(
         for overall, file with name outputfile+'.overall.dat'
     """
     logger.info("Start calculating particle neighbors by voro++ with PBC")
-    fneighbor = open(outputfile + ".neighbor.dat", "w", encoding="utf-8")
-    ffacearea = open(outputfile + ".facearea.dat", "w", encoding="utf-8")
-    findex = open(outputfile + ".voroindex.dat", "w", encoding="utf-8")
-    findex.write("id   voro_index   0_to_7_faces\n")
-    foverall = open(outputfile + ".overall.dat", "w", encoding="utf-8")
-    foverall.write("id   cn   volume   facearea\n")
+    with open(outputfile + ".neighbor.dat", "w", encoding="utf-8") as fneighbor, \
+            open(outputfile + ".facearea.dat", "w", encoding="utf-8") as ffacearea, \
+            open(outputfile + ".voroindex.dat", "w", encoding="utf-8") as findex, \
+            open(outputfile + ".overall.dat", "w", encoding="utf-8") as foverall:
+        findex.write("id   voro_index   0_to_7_faces\n")
+        foverall.write("id   cn   volume   facearea\n")
 
-    position, bounds = get_input(snapshots, radii)
-    ndim = snapshots.snapshots[0].positions.shape[1]
-    for n in range(snapshots.nsnapshots):
-        fileformat = "%d " + "%.6f " * ndim + "%.6f"
-        np.savetxt("dumpused", position[n], fmt=fileformat)
+        position, bounds = get_input(snapshots, radii)
+        ndim = snapshots.snapshots[0].positions.shape[1]
+        for n in range(snapshots.nsnapshots):
+            fileformat = "%d " + "%.6f " * ndim + "%.6f"
+            np.savetxt("dumpused", position[n], fmt=fileformat)
 
-        boxbounds = bounds[n].ravel()
-        cmdline = "voro++ " + ppp + ' -r -c "%i %s %v %F @%i %A @%i %s %n @%i %s %f" ' + ("%f %f " * ndim % tuple(boxbounds)) + "dumpused"
-        if n == 0:
-            logger.info(f"Start calculating Voronoi for PBC by voro++, command: {cmdline}")
-        try:
-            subprocess.run(cmdline, shell=True, check=False)
-        except BaseException:
-            raise ImportError("***Please install VORO++***")
+            boxbounds = bounds[n].ravel()
+            cmdline = "voro++ " + ppp + ' -r -c "%i %s %v %F @%i %A @%i %s %n @%i %s %f" ' + ("%f %f " * ndim % tuple(boxbounds)) + "dumpused"
+            if n == 0:
+                logger.info(f"Start calculating Voronoi for PBC by voro++, command: {cmdline}")
+            try:
+                subprocess.run(cmdline, shell=True, check=False)
+            except BaseException:
+                raise ImportError("***Please install VORO++***")
 
-        fneighbor.write("id   cn   neighborlist\n")
-        ffacearea.write("id   cn   facearealist\n")
-        f = open("dumpused.vol", "r", encoding="utf-8")
-        for _ in range(len(position[n][:, 0])):
-            item = f.readline().split("@")
-            foverall.write(item[0] + "\n")
-            findex.write(item[1] + "\n")
-            fneighbor.write(item[2] + "\n")
-            ffacearea.write(item[3])
-        f.close()
+            fneighbor.write("id   cn   neighborlist\n")
+            ffacearea.write("id   cn   facearealist\n")
+            with open("dumpused.vol", "r", encoding="utf-8") as f:
+                for _ in range(len(position[n][:, 0])):
+                    item = f.readline().split("@")
+                    foverall.write(item[0] + "\n")
+                    findex.write(item[1] + "\n")
+                    fneighbor.write(item[2] + "\n")
+                    ffacearea.write(item[3])
 
-    os.remove("dumpused")  # delete temporary files
-    os.remove("dumpused.vol")
-    fneighbor.close()
-    ffacearea.close()
-    foverall.close()
-    findex.close()
+        os.remove("dumpused")  # delete temporary files
+        os.remove("dumpused.vol")
     logger.info("Finish calculating Voronoi for PBC by voro++")
 
 
@@ -140,68 +135,63 @@ def voronowalls(
         for overall, file with name outputfile+'.overall.dat'
     """
     logger.info("Start calculating particle neighbors by voro++ without PBC")
-    fneighbor = open(outputfile + ".neighbor.dat", "w", encoding="utf-8")
-    ffacearea = open(outputfile + ".facearea.dat", "w", encoding="utf-8")
-    findex = open(outputfile + ".voroindex.dat", "w", encoding="utf-8")
-    findex.write("id   voro_index   0_to_7_faces\n")
-    foverall = open(outputfile + ".overall.dat", "w", encoding="utf-8")
-    np.set_printoptions(threshold=np.inf, linewidth=np.inf)
-    foverall.write("id   cn   volume   facearea\n")
+    with open(outputfile + ".neighbor.dat", "w", encoding="utf-8") as fneighbor, \
+            open(outputfile + ".facearea.dat", "w", encoding="utf-8") as ffacearea, \
+            open(outputfile + ".voroindex.dat", "w", encoding="utf-8") as findex, \
+            open(outputfile + ".overall.dat", "w", encoding="utf-8") as foverall:
+        findex.write("id   voro_index   0_to_7_faces\n")
+        np.set_printoptions(threshold=np.inf, linewidth=np.inf)
+        foverall.write("id   cn   volume   facearea\n")
 
-    position, bounds = get_input(snapshots, radii)
-    ndim = snapshots.snapshots[0].positions.shape[1]
-    for n in range(snapshots.nsnapshots):
-        fileformat = "%d " + "%.6f " * ndim + "%.6f"
-        np.savetxt("dumpused", position[n], fmt=fileformat)
+        position, bounds = get_input(snapshots, radii)
+        ndim = snapshots.snapshots[0].positions.shape[1]
+        for n in range(snapshots.nsnapshots):
+            fileformat = "%d " + "%.6f " * ndim + "%.6f"
+            np.savetxt("dumpused", position[n], fmt=fileformat)
 
-        Boxbounds = bounds[n].ravel()
-        cmdline = "voro++ " + ppp + ' -r -c "%i %s %v %F @%i %A @%i %s %n @%i %s %f" ' + ("%f %f " * ndim % tuple(Boxbounds)) + "dumpused"
-        if n == 0:
-            logger.info(f"Start calculating Voronoi for non-PBC by voro++, command: {cmdline}")
-        subprocess.run(cmdline, shell=True, check=False)
+            Boxbounds = bounds[n].ravel()
+            cmdline = "voro++ " + ppp + ' -r -c "%i %s %v %F @%i %A @%i %s %n @%i %s %f" ' + ("%f %f " * ndim % tuple(Boxbounds)) + "dumpused"
+            if n == 0:
+                logger.info(f"Start calculating Voronoi for non-PBC by voro++, command: {cmdline}")
+            subprocess.run(cmdline, shell=True, check=False)
 
-        fneighbor.write("id   cn   neighborlist\n")
-        ffacearea.write("id   cn   facearealist\n")
-        f = open("dumpused.vol", "r", encoding="utf-8")
-        for _ in range(len(position[n][:, 0])):
-            item = f.readline().split("@")
+            fneighbor.write("id   cn   neighborlist\n")
+            ffacearea.write("id   cn   facearealist\n")
+            with open("dumpused.vol", "r", encoding="utf-8") as f:
+                for _ in range(len(position[n][:, 0])):
+                    item = f.readline().split("@")
 
-            medium = [int(j) for j in item[2].split()]
-            mneighbor = np.array(medium, dtype=np.int32)
-            neighbor = mneighbor[mneighbor > 0]
-            neighbor[1] = len(neighbor[2:])
+                    medium = [int(j) for j in item[2].split()]
+                    mneighbor = np.array(medium, dtype=np.int32)
+                    neighbor = mneighbor[mneighbor > 0]
+                    neighbor[1] = len(neighbor[2:])
 
-            medium = [float(j) for j in item[3].split()]
-            facearea = np.array(medium)
-            facearea = facearea[mneighbor > 0]
-            facearea[1] = neighbor[1]
+                    medium = [float(j) for j in item[3].split()]
+                    facearea = np.array(medium)
+                    facearea = facearea[mneighbor > 0]
+                    facearea[1] = neighbor[1]
 
-            medium = [float(j) for j in item[0].split()]
-            overall = np.array(medium)
-            overall[1] = neighbor[1]
-            overall[3] = facearea[2:].sum()
+                    medium = [float(j) for j in item[0].split()]
+                    overall = np.array(medium)
+                    overall[1] = neighbor[1]
+                    overall[3] = facearea[2:].sum()
 
-            # -----write Overall results-----
-            np.savetxt("temp", overall[np.newaxis, :], fmt="%d %d %.6f %.6f")
-            with open("temp", "r", encoding="utf-8") as temp:
-                foverall.write(temp.read())
-            # -----write voronoi index-------
-            findex.write(item[1] + "\n")
-            # -----write facearea list-------
-            np.savetxt("temp", facearea[np.newaxis, :], fmt="%d " * 2 + "%.6f " * neighbor[1])
-            with open("temp", "r", encoding="utf-8") as temp:
-                ffacearea.write(temp.read())
-            # -----write neighbor list-------
-            fneighbor.write(re.sub(r"[\[\]]", " ", np.array2string(neighbor) + "\n"))
-        f.close()
+                    # -----write Overall results-----
+                    np.savetxt("temp", overall[np.newaxis, :], fmt="%d %d %.6f %.6f")
+                    with open("temp", "r", encoding="utf-8") as temp:
+                        foverall.write(temp.read())
+                    # -----write voronoi index-------
+                    findex.write(item[1] + "\n")
+                    # -----write facearea list-------
+                    np.savetxt("temp", facearea[np.newaxis, :], fmt="%d " * 2 + "%.6f " * neighbor[1])
+                    with open("temp", "r", encoding="utf-8") as temp:
+                        ffacearea.write(temp.read())
+                    # -----write neighbor list-------
+                    fneighbor.write(re.sub(r"[\[\]]", " ", np.array2string(neighbor) + "\n"))
 
-    os.remove("dumpused")  # delete temporary files
-    os.remove("dumpused.vol")
-    os.remove("temp")
-    fneighbor.close()
-    ffacearea.close()
-    foverall.close()
-    findex.close()
+        os.remove("dumpused")  # delete temporary files
+        os.remove("dumpused.vol")
+        os.remove("temp")
     logger.info("Finish calculating Voronoi for non-PBC by voro++")
 
 
